@@ -8,6 +8,8 @@ use crate::script::ScriptCase;
 pub const VALUES: &[&str] = &[
     "1", "2", "3", "10", "abc", "ab", "a b", "  x ", "ß", "日本", "NULL", "(empty)", "0.5", "a\tb",
     "x  y", "Z", "z", "é", "\u{1F600}", "-1", "a\u{a0}b", "1 ", " 1", " ",
+    // white space at the edges that is not ASCII white space (see known finding D21 for updates)
+    "\u{a0}lead", "\u{2003}both\u{2003}",
 ];
 
 pub const ERR_TEXTS: &[&str] = &[
@@ -22,6 +24,10 @@ pub const ERR_TEXTS: &[&str] = &[
     "Hey you got FakeDBError!",
     "err [1] (x) {y}",
     "connfail",
+    // single-line texts that do not survive being written as an inline pattern (re-tokenised)
+    "two  blanks inside",
+    "tab\there",
+    "trailing tab\t",
 ];
 
 pub const REGEXES: &[&str] = &[
